@@ -343,3 +343,19 @@ func TestF16_HashInImportedRef(t *testing.T) {
 		t.Errorf("property p of the imported holder now refers to %q; definitions: %v", target, keys(sw.Definitions))
 	}
 }
+
+// Observation (C09, not decided by the static rules): a dangling local $ref to a missing top-level definition.
+func TestObs_DanglingLocalRef(t *testing.T) {
+	sw := load(t, `{"swagger":"2.0","paths":{"/a":{"get":{"responses":{"200":{"description":"ok","schema":{"$ref":"#/definitions/missing"}}}}}},"definitions":{"A":{"type":"string"}}}`)
+	an := analysis.New(sw)
+	for _, o := range []analysis.FlattenOpts{{Minimal: true}, {}, {Expand: true}} {
+		o.Spec = analysis.New(load(t, `{"swagger":"2.0","paths":{"/a":{"get":{"responses":{"200":{"description":"ok","schema":{"$ref":"#/definitions/missing"}}}}}},"definitions":{"A":{"type":"string"}}}`))
+		o.BasePath = "/tmp/x.json"
+		err := analysis.Flatten(o)
+		t.Logf("Minimal=%v Expand=%v -> err=%v", o.Minimal, o.Expand, err)
+		if err == nil {
+			t.Errorf("Flatten reports success although #/definitions/missing cannot be resolved (Minimal=%v Expand=%v)", o.Minimal, o.Expand)
+		}
+	}
+	_ = an
+}
